@@ -3,8 +3,8 @@
    The model (Model/Wal.v) follows src/ingester/wal.rs after the two `fix:`
    commits (open cuts an incomplete tail off the active segment; open never
    starts below the flushed mark). *)
-From CS Require Import Base.Prelude Model.Wal Proofs.WalProofs.
-From CSGen Require Import Consts.
+From CS Require Import Base.Prelude Model.Wal Proofs.WalProofs Proofs.WalTie.
+From CSGen Require Import Consts Funs.
 Open Scope N_scope.
 
 (* decode_header inverts encode_header (decoder offsets and encoder offsets are
@@ -126,6 +126,17 @@ Theorem C05_flush_disciplined :
   hist_ok st (flush_ops s) = true.
 Proof. exact flush_disciplined. Qed.
 Print Assumptions C05_flush_disciplined.
+
+(* ... and flush_ops / ensure_wal_ops are literally what the call sites pass:
+   the guards and the arguments of truncate_before / persist_flushed_seq /
+   read_entries_after are re-translated from src/ingester/mod.rs on every run
+   (generated/Funs.v) *)
+Theorem C05_call_sites_are_the_code :
+  (forall s, flush_ops s = flush_ops_code s) /\
+  (forall max d, ensure_wal_ops max d = ensure_wal_ops_code max d) /\
+  (forall fl, Z.to_N (Funs.wal_ensure_read_after (Z.of_N fl)) = fl).
+Proof. exact wal_call_sites_are_the_code. Qed.
+Print Assumptions C05_call_sites_are_the_code.
 
 (* the code as it was before the two `fix:` commits violated the property
    (witnesses on the legacy open; both are regression cases of the harness) *)
